@@ -5,7 +5,7 @@ import stat
 
 from snakeoil import data_source
 from snakeoil.chksum import get_handler
-from snakeoil.fileutils import AtomicWriteFile, readlines_utf8
+from snakeoil.fileutils import AtomicWriteFile
 
 from .. import os_data
 from ..fs import fs
@@ -72,8 +72,9 @@ class ContentsFile(contentsSet):
                     gid=os_data.root_gid,
                     perms=0o644,
                 )
-            # whitespace is significant: a path may end in it
-            return readlines_utf8(self._source, False)
+            # whitespace is significant: a path may end in it.  Only "\n" ends
+            # an entry: a path may hold "\r", which is written verbatim.
+            return open(self._source, encoding="utf8", newline="\n")
         fobj = self._source.text_fileobj(writable=write)
         if write:
             fobj.seek(0, 0)
